@@ -114,7 +114,7 @@ class C12(Property):
     RULE = ('a case is one whole scripted session. rx: constructor recvsize/maxsize, a network script (chunks and '
             'socket.timeout events, then EOF) and a sequence of recv / peek / recv_size / recv_until / recv_close '
             'calls (each retried after Timeout when retry=1), every attempt recording result + getrecvbuffer(); '
-            'exhaustive: all streams <= 4 (quick) / 5 (thorough) bytes over {a,b} x all compositions into chunks x '
+            'exhaustive: all streams <= 4 (quick) / 6 (thorough) bytes over {a,b} x all compositions into chunks x '
             'timeout placements x recvsize x maxsize x call families; random: streams <= 48 bytes, delimiters cut '
             'from the stream, one-byte chunkings; adversarial: delimiter straddling a chunk edge, size met exactly '
             'at an edge, maxsize at offset+len(delimiter)+-1, timeout just before completion. tx: partial-send / '
@@ -172,11 +172,11 @@ class C12(Property):
         rng = self.rng
         th = self.thorough
         # -- rx exhaustive small scope
-        yield from self.rx_exhaustive(5 if th else 4)
+        yield from self.rx_exhaustive(6 if th else 4)
         # -- tx exhaustive small scope
         yield from self.tx_exhaustive()
         # -- adversarial + random, interleaved so that every family is hit within the budget
-        n = 400000 if th else 26000
+        n = 1500000 if th else 100000
         for i in range(n):
             r = i % 10
             if r < 4:
@@ -219,6 +219,7 @@ class C12(Property):
         [['c', 'U']],
         [['s', 3], ['c', 'U'], ['s', 1]],
         [['u', 0, 'U', '6262'], ['c', 'N'], ['p', 0]],
+        [['m', 2], ['u', 0, 'U', '62'], ['m', 0], ['c', 'U'], ['m', 9], ['c', 'U']],
     ]
 
     def rx_exhaustive(self, L):
@@ -309,8 +310,10 @@ class C12(Property):
             return ['s', rng.choice([0, 1, 1, 2, 3, 5, max(0, n - 1), n, n + 1])]
         if r < 0.78:
             return ['p', rng.choice([0, 1, 2, 3, 7, n, n + 1])]
-        if r < 0.92:
+        if r < 0.9:
             return ['r', rng.choice([0, 1, 1, 2, 3, 8, 100])]
+        if r < 0.93:
+            return ['m', max(0, n + rng.choice([-3, -1, 0, 1, 4]))]
         return ['c', self.rand_max(rng, n)]
 
     def rx_random(self, rng, onebyte=False, big=False):
@@ -439,7 +442,7 @@ class C12(Property):
         else:
             cuts = [rng.randint(1, 6) for _ in range(rng.randint(1, 30))]
         return {'k': 'ns', 'ms': ms, 'wscript': wscript, 'cuts': cuts, 'nreads': np_ + rng.randint(0, 1),
-                'payloads': [hx(p) for p in payloads]}
+                'payloads': [hx(p) for p in payloads], 'via': rng.choice(['ctor', 'ctor', 'set', 'arg'])}
 
     def ns_long(self, rng):
         payloads = [self.rand_stream(rng, rng.choice([0, 9, 10, 99, 100, 999, 1000, 5000]), bytes(range(256)))
@@ -470,7 +473,8 @@ class C12(Property):
         else:
             stream = self.rand_stream(rng, rng.randint(0, 14), alpha)
         script = self.rand_script(rng, stream, onebyte=rng.random() < 0.3, p_t=0.1 if rng.random() < 0.4 else 0.0)
-        return {'k': 'nsr', 'ms': ms, 'script': script, 'nreads': rng.randint(1, 4)}
+        return {'k': 'nsr', 'ms': ms, 'script': script, 'nreads': rng.randint(1, 4),
+                'via': rng.choice(['ctor', 'ctor', 'set', 'arg'])}
 
     # ------------------------------------------------------------------ model line
     @staticmethod
@@ -494,6 +498,8 @@ class C12(Property):
                     toks.append('u%d:%s:%s' % (op[1], op[2], op[3]))
                 elif op[0] == 'c':
                     toks.append('c%s' % op[1])
+                elif op[0] == 'm':
+                    toks.append('m%d' % op[1])
             return ' '.join(toks)
         if k == 'tx':
             toks = ['tx', self._sscript_tok(case['script'])]
@@ -549,9 +555,13 @@ class C12(Property):
             for _ in range(tries):
                 rec = {'op': i}
                 try:
-                    v = self._call_rx(bs, op, case['ms'])
-                    rec['r'] = 'ok'
-                    rec['v'] = hx(bytes(v)) if isinstance(v, (bytes, bytearray)) else 'nonbytes:%s' % type(v).__name__
+                    if op[0] == 'm':
+                        v = bs.setmaxsize(op[1])
+                        rec['r'] = 'none' if v is None else 'exc:ret'
+                    else:
+                        v = self._call_rx(bs, op, case['ms'])
+                        rec['r'] = 'ok'
+                        rec['v'] = hx(bytes(v)) if isinstance(v, (bytes, bytearray)) else 'nonbytes:%s' % type(v).__name__
                 except CaseTimeout:
                     raise
                 except Exception as e:
@@ -590,6 +600,21 @@ class C12(Property):
             out.append(rec)
         return out
 
+    @staticmethod
+    def _mk_ns(fake, case):
+        """maxsize reaches read_ns by the constructor, by setmaxsize() or as an argument"""
+        from boltons.socketutils import NetstringSocket
+        via = case.get('via', 'ctor')
+        if via == 'ctor':
+            ns = NetstringSocket(fake, timeout=None, maxsize=case['ms'])
+        else:
+            ns = NetstringSocket(fake, timeout=None)
+            if via == 'set':
+                ns.setmaxsize(case['ms'])
+        ns.bsock.settimeout(None)
+        kw = {'maxsize': case['ms']} if via == 'arg' else {}
+        return ns, kw
+
     def run_ns(self, case):
         from boltons.socketutils import NetstringSocket
         fw = FakeSock((), self._sscript(case['wscript']))
@@ -618,12 +643,11 @@ class C12(Property):
                 wres.append(r)
         wire = fw.wire
         fr = FakeSock(cut(wire, case['cuts']))
-        rd = NetstringSocket(fr, timeout=None, maxsize=case['ms'])
-        rd.bsock.settimeout(None)
+        rd, kw = self._mk_ns(fr, case)
         rres = []
         for _ in range(case['nreads']):
             try:
-                v = rd.read_ns()
+                v = rd.read_ns(**kw)
                 rres.append('ok:' + hx(bytes(v)))
             except CaseTimeout:
                 raise
@@ -634,13 +658,12 @@ class C12(Property):
     def run_nsr(self, case):
         from boltons.socketutils import NetstringSocket
         fr = FakeSock(self._rscript(case['script']))
-        rd = NetstringSocket(fr, timeout=None, maxsize=case['ms'])
-        rd.bsock.settimeout(None)
+        rd, kw = self._mk_ns(fr, case)
         out = []
         for _ in range(case['nreads']):
             rec = {}
             try:
-                v = rd.read_ns()
+                v = rd.read_ns(**kw)
                 rec['r'] = 'ok:' + hx(bytes(v))
             except CaseTimeout:
                 raise
@@ -750,6 +773,7 @@ class C12(Property):
         seen_t = 0
         got_value = False
         done = {}
+        cur_ms = case['ms']
         for rec in obs['recs']:
             op = case['ops'][rec['op']]
             r = rec['r']
@@ -759,7 +783,12 @@ class C12(Property):
             if rec['rbuf'] == 'nonbytes':
                 return Failure('raises', 'getrecvbuffer() is not bytes')
             rbuf, und = unhx(rec['rbuf']), unhx(rec['und'])
-            if r == 'timeout':
+            if op[0] == 'm':
+                if r != 'none':
+                    return Failure('raises', 'setmaxsize -> %s' % r)
+                cur_ms = op[1]
+                consumed = b''
+            elif r == 'timeout':
                 seen_t += 1
                 if seen_t > n_t:
                     return Failure('spurious-timeout', 'more Timeouts (%d) than the socket raised (%d)' % (seen_t, n_t))
@@ -777,7 +806,7 @@ class C12(Property):
                 consumed = v
                 got_value = got_value or bool(v)
             else:
-                want_r, want_v, consumed = self.whole_stream_answer(op, rem, case['ms'])
+                want_r, want_v, consumed = self.whole_stream_answer(op, rem, cur_ms)
                 if r != want_r or (r == 'ok' and unhx(rec['v']) != want_v):
                     return Failure('chunk-dependence',
                                    '%r on remaining stream %r: got %s %r, whole-stream answer %s %r' % (
